@@ -1,6 +1,7 @@
 """C06: the change stream reproduces the RIB.  Same model and harness as C02;
 the oracle folds the implementation's NlriChange stream with three consumers."""
 from gen import ribcommon as R
+from gen import ribenum as E
 from gen.c02 import Prop as C02
 
 class Prop(C02):
@@ -24,9 +25,11 @@ class Prop(C02):
             'LLGR mark and purges/NO_LLGR purge/next-hop flips/start-end deferral; non-trivial = at least one change with best_changed=false or '
             'any_changed=false was emitted; distinct = distinct sequence of (prefix, flags, path list) changes')
 
+    enum_which = 'c06'
+
     def gen_cases(self, rng, tier):
         n = 700 if tier == 'quick' else 7000
-        cases = []
+        cases = E.all_enumerated('c06') + (E.state_x_op(pairs=True) if tier != 'quick' else [])
         for k in range(n):
             if k % 6 == 3:
                 # deferral-heavy histories: a start-up deferral during which paths come, go, lose their next hop
